@@ -3,6 +3,7 @@ from __future__ import annotations
 
 import itertools
 import json
+import re
 
 from harness.common import Run
 from harness.props import state_toy as T
@@ -21,9 +22,12 @@ META = dict(
                "per-individual reverts, and none at all for histories of full reverts.",
     level_note="Trusted: Coq kernel (no axioms: all theorems closed under the global context); the hand-written model's tie is the "
                "executed correspondence (toy graphs built as real LinkedVariables), not a translation; graph well-formedness is a "
-               "hypothesis (C15) checked by vm_compute on every graph used; F_mix (row-wise node functions) is a hypothesis for "
-               "partial reverts (proved for one-parent entry-wise nodes under torch.where by C02_F_mix_entrywise; exercised incl. +-inf/NaN "
-               "by the tie and the oracle); torch kernels, deepcopy, REF-mode aliasing under in-place mutation are outside the model. "
+               "hypothesis of the generic theorems, PROVED from C15's theorems for every graph built by the modelled DAG constructor "
+               "(C01_built_graph_wf; the C01_*_built theorems have no graph hypothesis, and C01_read_by_name_built characterises reads by "
+               "NAME, independently of the order) and recomputed by vm_compute on every graph used incl. all shipped graph literals; "
+               "F_mix (row-wise node functions) is only needed for partial reverts (C01_never_stale_full_reverts_nomix), proved for "
+               "the op-kind node functions of C07 with any number of parents (C02_F_mix_opkinds) and for one-parent entry-wise toy nodes "
+               "(C02_F_mix_entrywise), a hypothesis for other functions; exercised incl. +-inf/NaN by the tie and the oracle; torch kernels, deepcopy, REF-mode aliasing under in-place mutation are outside the model. "
                "Former finding F1 (fork-mode-switch-stale-revert) is fixed by 27ac519 and the blend of partial reverts (F2 of C02) by "
                "fe0cadd; a tree whose __setitem__ keeps the fork on an un-forked assignment, or whose revert(subset) blends, is reported "
                "as a violation with the stale-read history as replay.",
@@ -33,6 +37,12 @@ META = dict(
 OBLIGATIONS = [
     "C01_never_stale", "C01_never_stale_full_reverts", "C01_unset_is_error", "C01_read_is_scratch", "C01_unforked_set_drops_fork",
     "C01_get_transparent", "C01_clone_isolated", "C01_clone_copies", "C01_examples",
+    # composition with C15 (graph hypothesis WF discharged for every graph the modelled DAG constructor builds; reads characterised
+    # by name, independently of the order) and with C07 (F_mix from the op-kind semantics): coq/theories/Compose, docs/Compose.md
+    "C01_built_graph_wf", "C01_accepted_defs_have_wf_graph", "C01_never_stale_built", "C01_never_stale_full_reverts_built",
+    "C01_never_stale_full_reverts_nomix", "C01_scratch_is_by_name", "C01_read_by_name_built",
+    "C01_read_by_name_full_reverts_built", "C01_never_stale_opkinds_built", "C01_compose_examples",
+    "C01_reads_are_C07_eval", "C01_reads_row_local", "C01_reads_eval_example",
 ]
 
 # The model variant the theorems of Props/C01.v are about (State/StateNow.v): True = State.__setitem__ as it is since 27ac519
@@ -404,9 +414,73 @@ def shipped_states(run: Run, kinds):
         run.count("shipped", f"{kind}{kw or ''}: {n_ok} operations checked on a {len(names)}-node graph")
 
 
+COMPOSE_HDR = ("From Coq Require Import List.\nFrom Leaspy Require Dag.DagModel Locality.Shipped.\n"
+               "From Leaspy Require Import Dag.GraphLit Compose.ShippedCheck.\nFrom LeaspyGen Require GenGraphs GenC07.\n"
+               "Import ListNotations.\n")
+
+
+def compose_shipped_tie(run: Run):
+    """Composition C15/C07 -> C01/C02 on the graphs the tree under test builds TODAY: regenerate both families of graph literals from
+    the running code (coq/gen/GenGraphs.v: 31 model configurations; coq/gen/GenC07.v: the individual-axis literals), then rebuild
+    coq/theories/Compose/ShippedTie.v, whose theorems are closed by vm_compute: every literal's definitions are accepted by the
+    modelled DAG constructor with the order the implementation computed, the bridged State graph passes the boolean WF check, the
+    axis literals are well typed and satisfy the closure condition of the partial-revert theorems for every (individual latent
+    variable, per-individual term) pair.  Fail closed: a translation or build failure marks the run broken; the failing literals are
+    then localised by evaluating the same checks graph by graph."""
+    from harness import common
+    from harness.translate import graphs as tgraphs
+    from harness.props import c07
+    info = dict(file="coq/theories/Compose/ShippedTie.v",
+                theorems=["shipped_graphs_bridge", "shipped_graphs_accepted", "shipped_axis_graphs_bridge", "shipped_axis_graphs_accepted"])
+    run.extra["compose_shipped_tie"] = info
+    graphs = tgraphs.write_gen(run)                      # marks the run broken itself when the translation fails
+    ok7 = False
+    axis = []
+    try:
+        ok7 = c07.translate(run)                         # idem (one broken entry per configuration that does not translate)
+        axis = [g for g in (c07.shipped_graphs(run) or []) if g]
+    except Exception as e:  # noqa
+        run.broken("translate:GenC07", f"{type(e).__name__}: {e}", kind="broken-translation")
+    if graphs is None or not ok7:
+        info["status"] = "graph literals not regenerated"
+        return
+    run.forbid_scan()
+    ok, out = common.make(["theories/Compose/ShippedTie.vo"])
+    run.checker_cmds.append("make -C coq -j16 theories/Compose/ShippedTie.vo  (vm_compute on every regenerated graph literal)")
+    info.update(graph_literals=len(graphs), graph_literal_nodes=sum(len(g["names"]) for g in graphs),
+                graph_literal_linked_nodes=sum(1 for g in graphs for c in g["classes"] if c == "LinkedVariable"),
+                axis_literals=len(axis), axis_literal_nodes=sum(len(g["nodes"]) for g in axis),
+                latent_term_pairs_checked_for_axis_read_ok=sum(len(g["latents"]) * len(g["ind_terms"]) for g in axis),
+                checks_per_graph_literal="definitions reproduce direct_ancestors; DagModel.build accepts them; order = sorted_variables_names of "
+                                         "the implementation; wf_gb (graph_of_build ...) = true",
+                checks_per_axis_literal="well_typed; DagModel.build accepts the definitions; order = the implementation's; wf_gb; every individual "
+                                        "latent variable is settable and per-individual; axis_read_ok_b for every (latent, per-individual term) pair")
+    for g in graphs:
+        run.count("compose_graph_literal_nodes", (len(g["names"]) // 10) * 10)
+    if ok:
+        info["status"] = "all literals pass (theorems closed by vm_compute)"
+        run.count("compose_shipped_tie", "graph literals bridged (build accepts, order agrees, wf_gb)", len(graphs))
+        run.count("compose_shipped_tie", "axis literals bridged (well_typed, build accepts, wf_gb, axis_read_ok_b)", len(axis))
+        return
+    # localise: which literal fails which check
+    bad1 = run.vm_bad_indices("compose_graphs", COMPOSE_HDR, "shipped_graph", [f"GenGraphs.g_{g['label']}" for g in graphs], "sg_check")
+    bad2 = run.vm_bad_indices("compose_axis", COMPOSE_HDR, "Shipped.shipped_graph", [f"GenC07.s_{g['name']}" for g in axis], "ax_check")
+    info["status"] = "FAILED"
+    info["failing_graph_literals"] = None if bad1 is None else [graphs[i]["label"] for i in bad1]
+    info["failing_axis_literals"] = None if bad2 is None else [axis[i]["name"] for i in bad2]
+    m = re.search(r'File "([^"]+)", line (\d+)[^\n]*\n(?:.*\n){0,8}', out)
+    run.broken("tie:Compose/ShippedTie", "the graphs the tree under test builds do not satisfy the hypotheses of the composed theorems "
+               f"(C01_*_built, C02_*_well_typed): failing graph literals {info['failing_graph_literals']}, failing axis literals "
+               f"{info['failing_axis_literals']}\n" + (m.group(0) if m else out[-1200:]), kind="broken-correspondence")
+
+
 def main(run: Run):
     thorough = run.tier == "thorough"
     run.prove("C01", OBLIGATIONS)
+    try:
+        compose_shipped_tie(run)
+    except Exception as e:  # noqa
+        run.broken("tie:Compose/ShippedTie", f"{type(e).__name__}: {e}", kind="broken-correspondence")
     from harness.common import use_impl
     use_impl()
     settle_variant(run)
@@ -424,8 +498,12 @@ def main(run: Run):
                        "the discipline flags evaluated on the real _last_fork/_values must all agree); the oracle compares every read "
                        "of the implementation with a fresh State holding the same independent values, bit for bit.")
     run.assumptions += [
-        "WF g: ancestors/children delivered by dag.py are the transitive closures in topological order (C15); recomputed by wf_b on every graph of the tie",
-        "F_mix: node functions of per-individual nodes act row by row (C07); only used for histories containing a partial revert",
+        "WF g: ancestors/children delivered by dag.py are the transitive closures in topological order — a THEOREM for every graph built by the "
+        "modelled DAG constructor (C01_built_graph_wf, from C15_topological / C15_exact; the C01_*_built theorems carry no graph hypothesis); "
+        "recomputed by wf_b on every graph of the tie and by wf_gb on every shipped graph literal (Compose/ShippedTie.v)",
+        "F_mix: node functions of per-individual nodes act row by row — a THEOREM for node functions given by the op-kinds of C07 "
+        "(C02_F_mix_opkinds, C01_never_stale_opkinds_built); not needed at all for histories without partial reverts "
+        "(C01_never_stale_full_reverts_nomix); a hypothesis for other node functions",
         "MaskDisciplined: partial reverts only while every doubly cached node of the forked sub-graph carries the individual axis (documented precondition); no other restriction on histories",
         "State.revert(subset) selects with torch.where (Coq instance xsem_where of the tie and of the examples): "
         + ("recognised on the tree under test (source shape + probes)" if MIX == CLAIMED_MIX else
